@@ -169,11 +169,11 @@ def FontOk (W : World) (d : DocSpec) (fonts : List (Nat × Font)) : Prop :=
     f = fontPure W spec (freshObj d n :: spec.reads.map (freshObj d))
 
 def CachesOk (W : World) (d : DocSpec) (c : Caches) : Prop :=
-  ObjOk d c.objs ∧ PObjOk d c.pobjs ∧ FontOk W d c.fonts
+  ObjOk d c.objs ∧ PObjOk d c.pobjs ∧ FontOk W d c.fonts ∧ c.busy = []
 
 theorem CachesOk.empty (W : World) (d : DocSpec) : CachesOk W d Caches.empty :=
   ⟨by intro n v h; simp [Caches.empty] at h, by intro n v h; simp [Caches.empty] at h,
-   by intro n v h; simp [Caches.empty] at h⟩
+   by intro n v h; simp [Caches.empty] at h, rfl⟩
 
 theorem mem_touch {n k : Nat} {v : Nat × Bool} : ∀ {l : List (Nat × (Nat × Bool))},
     (k, v) ∈ touch n l → ∃ b, (k, (v.1, b)) ∈ l
@@ -227,20 +227,31 @@ theorem readObj_spec (W : World) (d : DocSpec) (caching : Bool) (c : Caches) (n 
     (h : CachesOk W d c) :
     (readObj d caching c n).1 = freshObj d n ∧ CachesOk W d (readObj d caching c n).2 ∧
     (readObj d caching c n).2.fonts = c.fonts := by
-  obtain ⟨ho, hp, hf⟩ := h
+  obtain ⟨ho, hp, hf, hb⟩ := h
+  have hbusy : ∀ sid, c.busy.contains sid = false := by intro sid; rw [hb]; rfl
   unfold readObj
   split
-  · next v hv => exact ⟨(ho n v (alookup_mem hv)).symm, ⟨ho.touch n, hp, hf⟩, rfl⟩
+  · next v hv => exact ⟨(ho n v (alookup_mem hv)).symm, ⟨ho.touch n, hp, hf, hb⟩, rfl⟩
   · split
-    · next hn => exact ⟨by simp [freshObj, hn], ⟨ho, hp, hf⟩, rfl⟩
+    · next hn => exact ⟨by simp [freshObj, hn], ⟨ho, hp, hf, hb⟩, rfl⟩
     · next p hn =>
       have hfr : freshObj d n = some p := by simp [freshObj, hn]
       refine ⟨hfr.symm, ?_, ?_⟩
       · cases caching
-        · exact ⟨ho, hp, hf⟩
-        · exact ⟨ho.cons false hfr, hp, hf⟩
+        · exact ⟨ho, hp, hf, hb⟩
+        · exact ⟨ho.cons false hfr, hp, hf, hb⟩
       · cases caching <;> rfl
+    · next sid hn =>
+      -- dangling compressed reference: reads as null, the caches of the stream stay valid
+      have hfr : freshObj d n = none := by simp [freshObj, hn]
+      simp only [hbusy sid, Bool.false_eq_true, if_false]
+      split
+      · next sp hs =>
+        have hsid : freshObj d sid = some sp := by simp [freshObj, hs]
+        exact ⟨hfr.symm, ⟨objsAfterStream_ok caching ho hsid, (pobjsLookup_spec d caching c.pobjs sid hp).2, hf, hb⟩, rfl⟩
+      · exact ⟨hfr.symm, ⟨ho, hp, hf, hb⟩, rfl⟩
     · next sid q hn =>
+      simp only [hbusy sid, Bool.false_eq_true, if_false]
       split
       · next sp hs =>
         have hsid : freshObj d sid = some sp := by simp [freshObj, hs]
@@ -249,15 +260,15 @@ theorem readObj_spec (W : World) (d : DocSpec) (caching : Bool) (c : Caches) (n 
         obtain ⟨hr1, hr2⟩ := pobjsLookup_spec d caching c.pobjs sid hp
         rw [hr1]
         split
-        · next hnone => exact ⟨by rw [hfr, hnone], ⟨ho1, hr2, hf⟩, rfl⟩
+        · next hnone => exact ⟨by rw [hfr, hnone], ⟨ho1, hr2, hf, hb⟩, rfl⟩
         · next p hp' =>
           have hfn : freshObj d n = some p := by rw [hfr, hp']
-          refine ⟨hfn.symm, ⟨?_, hr2, hf⟩, rfl⟩
+          refine ⟨hfn.symm, ⟨?_, hr2, hf, hb⟩, rfl⟩
           cases caching
           · exact ho1
           · exact ObjOk.cons false ho1 hfn
       · next hs =>
-        refine ⟨?_, ⟨ho, hp, hf⟩, rfl⟩
+        refine ⟨?_, ⟨ho, hp, hf, hb⟩, rfl⟩
         simp only [freshObj, hn]
 
 theorem readMany_spec (W : World) (d : DocSpec) (caching : Bool) : ∀ (ns : List Nat) (c : Caches),
@@ -290,7 +301,7 @@ theorem getFont_spec (W : World) (d : DocSpec) (caching : Bool) (c : Caches) (t 
     simp only [getFont]
     split
     · next f hf =>
-      obtain ⟨spec, hs, he⟩ := r2.2.2 n f (alookup_mem hf)
+      obtain ⟨spec, hs, he⟩ := r2.2.2.1 n f (alookup_mem hf)
       refine ⟨?_, r2, ht⟩
       simp [freshFont, hs, fontOf_eq, he]
     · split
@@ -306,11 +317,11 @@ theorem getFont_spec (W : World) (d : DocSpec) (caching : Bool) (c : Caches) (t 
         · simp only [freshFont, hs, fontOf_eq]; rw [hval]
         · cases caching
           · exact m2
-          · refine ⟨m2.1, m2.2.1, ?_⟩
+          · refine ⟨m2.1, m2.2.1, ?_, m2.2.2.2⟩
             intro k f hm
             rcases List.mem_cons.mp hm with hm | hm
             · cases hm; exact ⟨spec, hs, hval⟩
-            · exact m2.2.2 k f hm
+            · exact m2.2.2.1 k f hm
 
 theorem getFonts_spec (W : World) (d : DocSpec) (caching : Bool) : ∀ (rs : List FontRef) (c : Caches) (t : Tables),
     CachesOk W d c → TablesOk W t →
